@@ -21,7 +21,7 @@ CHECKS = {
    text="On every explored state the incremental key must equal ZKey::from(&board) and the key of the same position loaded from the oracle's FEN; after every unmake it must equal the key before the move; across the whole run each position identity maps to exactly one key (path independence over every transposition the walk reaches).",
    ref="2/C04", note=WALK_NOTE),
  "C05": dict(tech="explicit-state exploration with a key->identity injectivity table over all visited positions, plus exhaustive enumeration of the single-component perturbation alphabet (~850 variants) on a subset",
-   text="All pairs among the visited identities are compared through the key->identity table (no two identities may share a key); for a subset of positions every single-component perturbation (side, each right, each en-passant file, each of 64 squares x 13 contents) must change the key.",
+   text="All pairs among the visited identities are compared through the key->identity table (no two identities may share a key); for a subset of positions every single-component perturbation (side, each right, each en-passant file, each of 64 squares x 13 contents) must change the key. After one move from each perturbed position the engine's repetition record (position_reached) must know that position's own key and none of the variants' keys.",
    ref="2/C05", note=WALK_NOTE + " A genuine 64-bit collision is possible in principle (p < 1e-4 at 50M keys)."),
  "C06": dict(tech="complete enumeration of the input domain (64 squares x every subset of the squares on the slider's lines x a background family; all 64 squares for leapers and pawns) against a square-by-square ray walk",
    text="The finite input space of the attack tables is enumerated completely in both tiers: rook 64 x 2^14 line subsets, bishop every line subset, queen every subset of one line family under {empty, full, every single square} of the other, each under the off-line backgrounds {empty, all, every single square} and with the own square occupied or not; knight, king and both pawn colours on all 64 squares. exhaustive=true.",
